@@ -262,6 +262,9 @@ func (e *Env) eval(x SExpr) Term {
 			}
 			to := fc.resolveType(e.pkgName, id.Name)
 			pv := e.eval(x.Args[1])
+			if pv.T == nil {
+				e.fail("as(%s, ...): untyped pointer, use ptrto", id.Name)
+			}
 			from := elemTypeOfPtr(pv.T)
 			if from == nil || to.T == nil {
 				e.fail("as(%s, ...): not a pointer to a struct", id.Name)
@@ -623,6 +626,14 @@ func (e *Env) index(x, i Term) Term {
 		i = e.asPtrIndex(i)
 		return mk(app("select", x.S, i.S), es, fc.sortT[es])
 	}
+	if strings.HasPrefix(x.Sort, "(Array ") && strings.HasSuffix(x.Sort, ")") {
+		// (Array K V) with an atomic key sort
+		rest := strings.TrimSuffix(strings.TrimPrefix(x.Sort, "(Array "), ")")
+		if j := strings.Index(rest, " "); j > 0 && !strings.HasPrefix(rest, "(") && rest[:j] == i.Sort {
+			es := rest[j+1:]
+			return mk(app("select", x.S, i.S), es, fc.sortT[es])
+		}
+	}
 	e.fail("cannot index value of sort %s (type %v)", x.Sort, x.T)
 	return Term{}
 }
@@ -917,6 +928,9 @@ func (e *Env) call(c SCall) Term {
 		}
 		var cs []Term
 		for _, name := range fc.sortedComps() {
+			if isRangeMarkerComp(name) || name == compMustCall {
+				continue // engine-internal markers, not program memory
+			}
 			cur, old := fc.comp(e.st, name), fc.comp(e.old, name)
 			if cur.S == old.S {
 				continue
